@@ -954,6 +954,12 @@ impl Machine {
                     rep.cache_dependent = true;
                     // the program that does come out must still be self-contained
                     self.closure_fails(ci, hist, c, "history", &mut extra);
+                    // the verdict on `call.0x<root>` depends on what the cache happens to hold:
+                    // a dependence on the history like any other (recorded finding F-C11-h)
+                    fail(
+                        "accepted_after_history",
+                        format!("a fresh assembler rejects the source ({fv}: {fm}) but after this history it compiles: {}", got.brief()),
+                    );
                 } else {
                     fail(
                         "accepted_after_history",
@@ -1680,6 +1686,222 @@ fn e_check(c: &ECase, debug: bool, obs: &EObs) -> Option<Fail> {
 }
 
 // ================================================================================================
+// part K: assemblers with a kernel that shares library code with programs
+// ================================================================================================
+//
+// The kernel is part of an assembler's construction history: `with_kernel` compiles the kernel
+// module with the procedure cache as it is at that moment, and everything it compiles stays in the
+// cache for the programs that follow. All combinations of
+//   library module lx::m (6 bodies of the exported procedure f) x
+//   compilations BEFORE `with_kernel` (none / a program that execs f / a program that calls f) x
+//   kernel source (execs f / re-exports f / re-exports f under another name / does not use m) x
+//   program compiled afterwards (7)
+// are enumerated. Oracles: (a) the verdict on the kernel and the kernel's procedure hashes do not
+// depend on what was compiled before; (b) the documented verdict on the kernel (a `call` reachable
+// in a kernel procedure is refused); (c) the documented verdict on each program (in particular
+// `caller` reachable outside a kernel is refused, whatever the kernel did with the same module);
+// (d) every syscall target of an assembled program is a procedure of its kernel and the program
+// runs without a missing-procedure error.
+
+const K_MODULES: [(&str, &str); 6] = [
+    ("plain", "export.f push.1 add end"),
+    ("call_local", "proc.h push.1 add end export.f call.h end"),
+    ("exec_of_call", "proc.h push.1 add end proc.g call.h end export.f exec.g end"),
+    ("procref_local", "proc.h push.1 add end export.f procref.h dropw end"),
+    ("caller", "export.f caller dropw end"),
+    ("exec_of_caller", "proc.g caller dropw end export.f exec.g end"),
+];
+const K_PRE: [(&str, Option<&str>); 3] = [
+    ("none", None),
+    ("program execs m::f", Some("use.lx::m begin exec.m::f end")),
+    ("program calls m::f", Some("use.lx::m begin call.m::f end")),
+];
+const K_KERNELS: [(&str, &str); 4] = [
+    ("execs m::f", "use.lx::m export.k exec.m::f end"),
+    ("re-exports m::f", "use.lx::m export.m::f export.k push.2 add end"),
+    ("re-exports m::f as g", "use.lx::m export.m::f->g export.k push.2 add end"),
+    ("independent of m", "export.k push.2 add end"),
+];
+const K_PROGRAMS: [(&str, &str); 7] = [
+    ("syscall.k", "begin syscall.k end"),
+    ("syscall.f", "begin syscall.f end"),
+    ("syscall.g", "begin syscall.g end"),
+    ("syscall.f in a called procedure", "proc.p syscall.f end begin call.p end"),
+    ("exec.m::f", "use.lx::m begin exec.m::f end"),
+    ("call.m::f", "use.lx::m begin call.m::f end"),
+    ("syscall.k then exec.m::f", "use.lx::m begin syscall.k exec.m::f end"),
+];
+
+#[derive(Clone, Debug, PartialEq)]
+enum KV {
+    Ok(Vec<String>),
+    Err(String, String),
+    Panic(String),
+}
+
+impl KV {
+    fn class(&self) -> &'static str {
+        match self {
+            KV::Ok(_) => "ok",
+            KV::Err(..) => "err",
+            KV::Panic(_) => "panic",
+        }
+    }
+    fn brief(&self) -> String {
+        match self {
+            KV::Ok(h) => format!("Ok({} kernel procedures)", h.len()),
+            KV::Err(v, m) => format!("Err({v}: {m})"),
+            KV::Panic(p) => format!("PANIC {}", guard::short_panic(p)),
+        }
+    }
+}
+
+/// builds library + pre-history + kernel; returns the verdict on the kernel and the assembler
+fn k_build(mi: usize, pi: usize, ki: usize, debug: bool) -> (KV, Option<Assembler>) {
+    let r = guard::catch(|| -> Result<Assembler, (String, String)> {
+        let ev = |e: assembly::AssemblyError| (err_variant(&format!("{e:?}")), format!("{e}"));
+        let lib = lx(K_MODULES[mi].1).expect("SUBJECT: part K library module must parse");
+        let a = Assembler::default().with_debug_mode(debug).with_library(&lib).map_err(ev)?;
+        if let Some(p) = K_PRE[pi].1 {
+            let _ = a.compile(p); // verdict judged elsewhere (program after an independent kernel)
+        }
+        a.with_kernel(K_KERNELS[ki].1).map_err(ev)
+    });
+    match r {
+        Err(p) => (KV::Panic(p), None),
+        Ok(Err((v, m))) => (KV::Err(v, m), None),
+        Ok(Ok(a)) => (KV::Ok(a.kernel().proc_hashes().iter().map(hex).collect()), Some(a)),
+    }
+}
+
+fn k_case(mi: usize, pi: usize, ki: usize, gi: Option<usize>, debug: bool) -> Value {
+    json!({"part": "K", "module": K_MODULES[mi].0, "module_src": K_MODULES[mi].1, "before_kernel": K_PRE[pi].0,
+           "before_kernel_src": K_PRE[pi].1, "kernel": K_KERNELS[ki].0, "kernel_src": K_KERNELS[ki].1,
+           "program": gi.map(|g| K_PROGRAMS[g].0), "program_src": gi.map(|g| K_PROGRAMS[g].1), "debug": debug})
+}
+
+fn k_check(mi: usize, pi: usize, ki: usize, debug: bool, only_program: Option<usize>, verbose: bool) -> (Vec<Fail>, u64) {
+    let mut fails = vec![];
+    let mut compiled = 0u64;
+    let (mname, _) = K_MODULES[mi];
+    let has_call = matches!(mname, "call_local" | "exec_of_call");
+    let has_caller = matches!(mname, "caller" | "exec_of_caller");
+    let uses_m = ki != 3;
+    let mk = |kind: &str, gi: Option<usize>, detail: String| Fail {
+        signature: json!({"part": "K", "kind": kind, "module": mname, "before_kernel": K_PRE[pi].0, "kernel": K_KERNELS[ki].0,
+                          "program": gi.map(|g| K_PROGRAMS[g].0)}),
+        summary: format!(
+            "lx::m = `{}`; before with_kernel: {}; kernel `{}`{}{}: {detail}",
+            K_MODULES[mi].1,
+            K_PRE[pi].0,
+            K_KERNELS[ki].1,
+            gi.map(|g| format!("; program `{}`", K_PROGRAMS[g].1)).unwrap_or_default(),
+            if debug { " [debug mode]" } else { "" }
+        ),
+        case: k_case(mi, pi, ki, gi, debug),
+    };
+    let (kv, asm) = k_build(mi, pi, ki, debug);
+    if verbose {
+        println!("kernel verdict: {}", kv.brief());
+    }
+    if only_program.is_none() {
+        if let KV::Panic(p) = &kv {
+            fails.push(mk("panic", None, format!("with_kernel panicked: {}", guard::short_panic(p))));
+        }
+        // (a) no dependence on what was compiled before
+        if pi != 0 {
+            let (fresh, _) = k_build(mi, 0, ki, debug);
+            if verbose {
+                println!("kernel verdict without the earlier compilation: {}", fresh.brief());
+            }
+            if fresh.class() != kv.class() || matches!((&fresh, &kv), (KV::Ok(a), KV::Ok(b)) if a != b) {
+                fails.push(mk("kernel_depends_on_history", None, format!("without the earlier compilation: {} ; with it: {}", fresh.brief(), kv.brief())));
+            }
+        }
+        // (b) documented verdict
+        if uses_m && has_call && kv.class() == "ok" {
+            fails.push(mk("call_in_kernel_accepted", None, "a kernel procedure with a reachable `call` was accepted".into()));
+        }
+        if (!uses_m || mname == "plain" || (has_caller && ki == 0)) && kv.class() == "err" {
+            fails.push(mk("valid_kernel_rejected", None, kv.brief()));
+        }
+    }
+    let Some(asm) = asm else { return (fails, compiled) };
+    let KV::Ok(khashes) = &kv else { unreachable!() };
+    for (gi, (gname, gsrc)) in K_PROGRAMS.iter().enumerate() {
+        if only_program.is_some() && only_program != Some(gi) {
+            continue;
+        }
+        compiled += 1;
+        let r = guard::catch(|| asm.compile(gsrc));
+        // (c) documented verdict on the program
+        let sys_f = gname.contains("syscall.f");
+        let sys_g = gname.contains("syscall.g");
+        let uses_f = gname.contains("m::f");
+        let expect_ok = if sys_f {
+            ki == 1
+        } else if sys_g {
+            ki == 2
+        } else if uses_f {
+            !has_caller
+        } else {
+            true
+        };
+        match r {
+            Err(p) => fails.push(mk("panic", Some(gi), format!("compile panicked: {}", guard::short_panic(&p)))),
+            Ok(Err(e)) => {
+                if verbose {
+                    println!("program `{gsrc}`: Err({e})");
+                }
+                if expect_ok {
+                    fails.push(mk("valid_program_rejected", Some(gi), format!("{e}")));
+                }
+            }
+            Ok(Ok(prog)) => {
+                if verbose {
+                    println!("program `{gsrc}`: assembled, root {}", hex(&prog.hash()));
+                }
+                if !expect_ok {
+                    let why = if uses_f { "`caller` is reachable outside a kernel" } else { "the syscall target is not a kernel procedure" };
+                    fails.push(mk("accepted_invalid", Some(gi), format!("assembled although {why}")));
+                }
+                // (d) self-contained
+                let pk: Vec<String> = prog.kernel().proc_hashes().iter().map(hex).collect();
+                if &pk != khashes {
+                    fails.push(mk("program_kernel_differs_from_assembler_kernel", Some(gi), format!("{pk:?} / {khashes:?}")));
+                }
+                let mut w = Walk::default();
+                walk(prog.root(), &prog, &mut w);
+                if !w.syscalls_not_in_kernel.is_empty() {
+                    fails.push(mk("syscall_target_not_in_kernel", Some(gi), format!("syscall targets {:?} are not among the kernel procedures {pk:?}", w.syscalls_not_in_kernel)));
+                }
+                if !w.missing_calls.is_empty() || !w.missing_syscalls.is_empty() {
+                    fails.push(mk("call_target_missing", Some(gi), format!("calls {:?} syscalls {:?} have no body in the code-block table", w.missing_calls, w.missing_syscalls)));
+                }
+                if expect_ok {
+                    match run_program(&prog, &FIXED_STACK, &[]) {
+                        Outcome::Ok(_) | Outcome::AsmErr(_) => {}
+                        Outcome::Panic(p) => fails.push(mk("panic", Some(gi), format!("execution panicked: {}", guard::short_panic(&p)))),
+                        Outcome::Err(e) => {
+                            let v = err_variant(&e);
+                            if verbose {
+                                println!("   execution: {e}");
+                            }
+                            if matches!(v.as_str(), "SyscallTargetNotInKernel" | "CodeBlockNotFound" | "DynamicCodeBlockNotFound") {
+                                fails.push(mk("missing_at_run_time", Some(gi), e));
+                            } else {
+                                fails.push(mk("unexpected_execution_error", Some(gi), e));
+                            }
+                        }
+                    }
+                }
+            }
+        }
+    }
+    (fails, compiled)
+}
+
+// ================================================================================================
 // entry point
 // ================================================================================================
 
@@ -1792,6 +2014,22 @@ pub fn run(ctx: &Ctx, replay: Option<&Value>) -> i32 {
         ctx.sample(e_case_json(&ecases[i], d));
     }
 
+    // ---- part K
+    let kgrid: Vec<(usize, usize, usize, bool)> = (0..K_MODULES.len())
+        .flat_map(|mi| (0..K_PRE.len()).flat_map(move |pi| (0..K_KERNELS.len()).flat_map(move |ki| [(mi, pi, ki, false), (mi, pi, ki, true)])))
+        .collect();
+    let kres: Vec<(Vec<Fail>, u64)> = kgrid.par_iter().map(|&(mi, pi, ki, d)| k_check(mi, pi, ki, d, None, false)).collect();
+    let mut k_programs = 0u64;
+    let mut k_kinds: BTreeMap<String, u64> = BTreeMap::new();
+    for (fails, n) in kres {
+        k_programs += n;
+        for f in fails {
+            *k_kinds.entry(f.signature["kind"].as_str().unwrap_or("?").to_string()).or_insert(0) += 1;
+            ctx.fail(f.signature, f.summary, f.case);
+        }
+    }
+    ctx.sample(k_case(1, 1, 0, None, false));
+
     // ---- cross-check of the explorer with stateright (thorough tier)
     let mut sr_json = json!({"run": false, "reason": "thorough tier only"});
     if ctx.tier == Tier::Thorough {
@@ -1859,6 +2097,15 @@ pub fn run(ctx: &Ctx, replay: Option<&Value>) -> i32 {
             "error_variants": e_err_variants,
             "grid": "every parameterised instruction form x {lowest-1, lowest, highest, highest+1}; local index {0,n-1,n,65535,65536} x locals n in {0,1,2,65535} x {procedure, begin}; call/syscall/caller/exec/dyn* in kernel, program, library; export in executable; undefined/duplicate procedures; zero immediates of div/u32div/u32mod/u32divmod",
             "profile": if cfg!(debug_assertions) { "checked (debug-assertions, overflow-checks)" } else { "release" },
+        },
+        "part_K": {
+            "library_modules": K_MODULES.iter().map(|x| x.0).collect::<Vec<_>>(),
+            "compilations_before_with_kernel": K_PRE.iter().map(|x| x.0).collect::<Vec<_>>(),
+            "kernels": K_KERNELS.iter().map(|x| x.0).collect::<Vec<_>>(),
+            "programs": K_PROGRAMS.iter().map(|x| x.0).collect::<Vec<_>>(),
+            "assembler_constructions": kgrid.len(),
+            "programs_compiled_after_with_kernel": k_programs,
+            "failures_by_kind (including recorded findings)": k_kinds,
         },
         "bounds": format!("{} sources, {} configurations, histories of length <= {}", n, Config::all().len(), max_len),
     });
@@ -1984,6 +2231,25 @@ fn run_replay(ctx: &Ctx, case: &Value, known: Vec<Known>) -> i32 {
                 if f.case == *case {
                     ctx.fail(f.signature, f.summary, f.case);
                 }
+            }
+        }
+        Some("K") => {
+            let pos = |list: &[&str], key: &str| {
+                let want = case[key].as_str().expect("replay field");
+                list.iter().position(|x| *x == want).unwrap_or_else(|| panic!("replay file names a {key} this build does not have: {want}"))
+            };
+            let mi = pos(&K_MODULES.map(|x| x.0), "module");
+            let pi = pos(&K_PRE.map(|x| x.0), "before_kernel");
+            let ki = pos(&K_KERNELS.map(|x| x.0), "kernel");
+            let gi = case["program"].as_str().map(|_| pos(&K_PROGRAMS.map(|x| x.0), "program"));
+            let debug = case["debug"].as_bool().unwrap_or(false);
+            println!("library module lx::m: {}", K_MODULES[mi].1);
+            println!("compiled before with_kernel: {:?}", K_PRE[pi].1);
+            println!("kernel module: {}", K_KERNELS[ki].1);
+            println!("debug mode: {debug}");
+            let (fails, _) = k_check(mi, pi, ki, debug, gi, true);
+            for f in fails {
+                ctx.fail(f.signature, f.summary, f.case);
             }
         }
         other => panic!("unknown replay case kind {other:?}"),
